@@ -425,9 +425,7 @@ pub fn zero_or_one_hot(v: &[Option<u64>]) -> bool {
 
 pub type Bits = Vec<bool>;
 
-pub fn to_input(b: &[bool]) -> IdpfInput {
-    IdpfInput::from_bools(b)
-}
+pub use crate::common::{to_input, UNALIGNED_INPUTS_MADE};
 
 pub fn bits_str(b: &[bool]) -> String {
     if b.len() <= 96 {
